@@ -160,6 +160,9 @@ func (p *ProjectRunner) runProcess(config *types.ProcessConfig) {
 		withExtraArgs(extraArgs),
 	)
 	verifInstance(process)
+	// the state object outlives the instances of a process: a new instance
+	// starts as Pending, whatever its predecessor ended as
+	process.setState(types.ProcessStatePending)
 	p.addRunningProcess(process)
 	p.waitGroup.Add(1)
 	go func(proc *Process) {
